@@ -279,6 +279,13 @@ impl<'a> Tx<'a> {
                 let n = m.mac.path.segments.last().map(|s| s.ident.to_string()).unwrap_or_default();
                 match n.as_str() {
                     "unreachable" => "{ assert(false); loop invariant false decreases 0int { } }".to_string(),
+                    "load_factor" if self.ops => {
+                        // R54: load_factor!(x) -> load_factor(x) (the macro body is under contract in unit arith: //@MACRO load_factor)
+                        match syn::parse2::<syn::Expr>(m.mac.tokens.clone()) {
+                            Ok(a) => format!("load_factor({})", self.expr(&a)),
+                            Err(_) => { self.err("load_factor! argument", e.span()); String::new() }
+                        }
+                    }
                     "treenode" => match self.node_ptr(e) {
                         Some(p) => p,
                         None => {
@@ -479,6 +486,20 @@ impl<'a> Tx<'a> {
             "TreeBin::new" if self.ops => {
                 let a = self.expr(&c.args[0]);
                 return format!("treebin_new(h, {})", a);
+            }
+            "std::cmp::min" | "cmp::min" | "std::cmp::max" | "cmp::max" if self.ops => {
+                // R55: std::cmp::min / max on integers
+                let a = self.expr(&c.args[0]);
+                let b = self.expr(&c.args[1]);
+                return format!("{}({}, {})", if p.ends_with("min") { "cmp_min" } else { "cmp_max" }, a, b);
+            }
+            "Shared::boxed" if self.ops && c.args.first().map(|a| toks(a).replace(' ', "").starts_with("Table::new(")).unwrap_or(false) => {
+                // R56: Shared::boxed(Table::new(n, ..), ..) -> h.alloc_table(n)
+                if let Some(syn::Expr::Call(tn)) = c.args.first() {
+                    let n = self.expr(&tn.args[0]);
+                    return format!("h.alloc_table({})", n);
+                }
+                return String::new();
             }
             "Shared::boxed" if self.ops => {
                 // R28: Shared::boxed(BinEntry::Node(Node::new(h, k, v)), ..) / Node::with_next(h, k, v, next) -> h.alloc_node(..);
@@ -774,7 +795,41 @@ impl<'a> Tx<'a> {
                 let a = self.expr(&m.args[0]);
                 format!("h.get_moved({}, {})", r, a)
             }
-            "help_transfer" | "add_count" if self.self_ptr => {
+            "fetch_add" | "fetch_sub" if self.ops && toks(&*m.receiver).replace(' ', "").starts_with("self.") => {
+                // R51: self.F.fetch_add(x, ORD) -> h.fetch_add_F(this, x)  (returns the previous value)
+                let f = toks(&*m.receiver).replace(' ', "").trim_start_matches("self.").to_string();
+                let v = self.expr(&m.args[0]);
+                format!("h.{}_{}(this, {})", name, f, v)
+            }
+            "abs" if self.ops => format!("iabs({})", self.expr(&m.receiver)),
+            "max" | "min" if self.ops && m.args.len() == 1 => {
+                // R57: a.max(b) / a.min(b) on integers
+                let a = self.expr(&m.receiver);
+                let b = self.expr(&m.args[0]);
+                format!("cmp_{}({}, {})", name, a, b)
+            }
+            "next_power_of_two" if self.ops => format!("{}.next_power_of_two()", self.expr(&m.receiver)),
+            "is_err" if self.ops && matches!(&*m.receiver, syn::Expr::MethodCall(ce) if ce.method == "compare_exchange" && toks(&*ce.receiver).replace(' ', "").starts_with("self.")) => {
+                // R52: .. .is_err() is the negation
+                if let syn::Expr::MethodCall(ce) = &*m.receiver {
+                    let f = toks(&*ce.receiver).replace(' ', "").trim_start_matches("self.").to_string();
+                    let a = self.expr(&ce.args[0]);
+                    let b = self.expr(&ce.args[1]);
+                    return format!("!h.cas_{}(this, {}, {})", f, a, b);
+                }
+                String::new()
+            }
+            "is_ok" if self.ops && matches!(&*m.receiver, syn::Expr::MethodCall(ce) if ce.method == "compare_exchange" && toks(&*ce.receiver).replace(' ', "").starts_with("self.")) => {
+                // R52: self.F.compare_exchange(a, b, ORD, ORD).is_ok() -> h.cas_F(this, a, b)
+                if let syn::Expr::MethodCall(ce) = &*m.receiver {
+                    let f = toks(&*ce.receiver).replace(' ', "").trim_start_matches("self.").to_string();
+                    let a = self.expr(&ce.args[0]);
+                    let b = self.expr(&ce.args[1]);
+                    return format!("h.cas_{}(this, {}, {})", f, a, b);
+                }
+                String::new()
+            }
+            "help_transfer" | "add_count" | "transfer" if self.self_ptr => {
                 // method of the map itself: f(h, this, args..) (guard arguments dropped)
                 let args: Vec<String> = m.args.iter().filter(|a| !is_drop_arg(a)).map(|a| self.expr(a)).collect();
                 let mut all = vec!["h".to_string(), "this".to_string()];
@@ -1022,6 +1077,7 @@ impl<'a> Tx<'a> {
                     _ => self.err(&format!("macro {}!", n), m.span()),
                 }
             }
+            syn::Stmt::Item(syn::Item::Use(_)) if self.ops => {} // R53: a `use` inside a function body only names paths
             syn::Stmt::Item(_) => self.err("nested item", s.span()),
             syn::Stmt::Expr(e, semi) => self.stmt_expr(e, semi.is_some(), ind, ln),
         }
@@ -1114,7 +1170,7 @@ impl<'a> Tx<'a> {
                 }
                 self.push(ind, "}".into(), 0, false);
             }
-            syn::Expr::Loop(l) if self.ops && !semi && toks(&l.body).contains("break ") && !toks(&l.body).replace("break ;", "").replace("break }", "").contains("break ") == false => {
+            syn::Expr::Loop(l) if self.ops && !semi && own_break_value(&l.body) => {
                 // R50: a loop in tail position whose value is given by `break V`: the value goes through a fresh variable (R27)
                 let name = format!("loop_val{}", self.loop_count);
                 self.push(ind, format!("let mut {};", name), ln, true);
@@ -1147,7 +1203,7 @@ impl<'a> Tx<'a> {
                 self.mark(ind + 1, format!("loopend:{}", k));
                 self.push(ind, "}".into(), 0, false);
             }
-            syn::Expr::While(w) if self.ops && matches!(&*w.cond, syn::Expr::Let(_)) => {
+            syn::Expr::While(w) if self.ops && !self.verbatim && matches!(&*w.cond, syn::Expr::Let(_)) => {
                 // R39: while let PAT = E { body }  ->  loop { let item = E; if item.is_none() { break; } let PAT' = item.unwrap(); body }
                 if let syn::Expr::Let(l) = &*w.cond {
                     let e = self.expr(&l.expr);
@@ -1432,6 +1488,25 @@ pub struct ArenaOut {
     pub text: String,
     pub errors: Vec<String>,
     pub extracted: Vec<serde_json::Value>,
+}
+
+/// does this loop body contain a `break <value>` of its own (not of a nested loop or closure)?
+fn own_break_value(b: &syn::Block) -> bool {
+    struct V(bool);
+    impl<'ast> syn::visit::Visit<'ast> for V {
+        fn visit_expr_loop(&mut self, _l: &'ast syn::ExprLoop) {}
+        fn visit_expr_while(&mut self, _l: &'ast syn::ExprWhile) {}
+        fn visit_expr_for_loop(&mut self, _l: &'ast syn::ExprForLoop) {}
+        fn visit_expr_closure(&mut self, _l: &'ast syn::ExprClosure) {}
+        fn visit_expr_break(&mut self, b: &'ast syn::ExprBreak) {
+            if b.expr.is_some() && b.label.is_none() {
+                self.0 = true;
+            }
+        }
+    }
+    let mut v = V(false);
+    syn::visit::Visit::visit_block(&mut v, b);
+    v.0
 }
 
 fn call_names(text: &str) -> Vec<String> {
